@@ -82,3 +82,52 @@ func (c *Ctx) checkPendingInvariant(m *encModel) {
 		}
 	}
 }
+
+// checkResolutionLatch decides that a path's resolution is the value of the public HighResolutionCoordinates field
+// when StartPath is called: the bytes StartPath writes (its own start point included) and the flag the rest of the
+// path is quantised with depend on the public field and not on the private copy left by an earlier path; and no
+// drawing method writes the private copy. Reported under the rule in use.
+func (c *Ctx) checkResolutionLatch(m *encModel) {
+	R := c.R
+	sp := c.Method("encode", "Encoder", "StartPath", true)
+	if sp == nil {
+		R.Unknown("encode.(*Encoder).StartPath:resolution", "-", "StartPath not found")
+		return
+	}
+	modeT := c.Named("encode", "mode")
+	noErr := sym.Nil(types.Universe.Lookup("error").Type())
+	pub := sym.Atom("public.hires", types.Typ[types.Bool])
+	stale := sym.Atom("stale.hires", types.Typ[types.Bool])
+	run := m.run(sp, map[string]*sym.Term{
+		"mode": modeConst(m.modes["modeStyling"], modeT), "err": noErr,
+		"HighResolutionCoordinates": pub, "highResolutionCoordinates": stale,
+	}, map[string]*sym.Term{"adj": u8(0)}, nil)
+	if run.mem == nil {
+		R.Unknown("encode.(*Encoder).StartPath:resolution", c.FPos(sp), "StartPath does not return in styling mode")
+		return
+	}
+	buf := run.field("buf")
+	deps := run.in.Deps(buf)
+	R.Check(!deps["stale.hires"] && !sym.Mentions(buf, stale.Key()), "encode.(*Encoder).StartPath:start-point-resolution", c.FPos(sp),
+		"the bytes written do not depend on the resolution copy left by an earlier path", "the start point is quantised with the stale private flag")
+	R.Check(deps["public.hires"] || sym.Mentions(buf, pub.Key()), "encode.(*Encoder).StartPath:start-point-uses-public-flag", c.FPos(sp),
+		"the start point is quantised according to HighResolutionCoordinates", shortKey(buf))
+	R.Check(sym.Eq(run.field("highResolutionCoordinates"), pub), "encode.(*Encoder).StartPath:latch", c.FPos(sp),
+		"the private copy used for the rest of the path is the public flag", shortKey(run.field("highResolutionCoordinates")))
+	// the drawing methods and the flush leave the private copy alone
+	for _, name := range append(c.drawingMethodNames(), "flushDrawOps") {
+		fn := c.Method("encode", "Encoder", name, true)
+		if fn == nil {
+			continue
+		}
+		r := m.run(fn, map[string]*sym.Term{
+			"mode": modeConst(m.modes["modeDrawing"], modeT), "err": noErr,
+			"HighResolutionCoordinates": pub, "highResolutionCoordinates": stale,
+		}, nil, nil)
+		if r.mem == nil {
+			continue
+		}
+		R.Check(sym.Eq(r.field("highResolutionCoordinates"), stale), "encode.(*Encoder)."+name+":resolution-unchanged", c.FPos(fn),
+			"the path's resolution is not changed inside the path", shortKey(r.field("highResolutionCoordinates")))
+	}
+}
